@@ -57,6 +57,12 @@ def gen_case(rng, tier, i):
                     pos += 1
                     if pos % 2:
                         a_[2] = int_marker(a_[2], pos // 2)
+    if i % 5 == 1:
+        # the tallies' subscribers close a batch (initialize()) from inside the N notification when n reaches 3: what is published
+        # after that in the same round is compared with the getters as always; the end results of these tallies are not judged
+        for sp in prog["stats"]:
+            if sp["kind"] == "tally" and sp.get("watch"):
+                sp["watch"] = "reset3"
     if i % 7 == 2:
         prog["empty_container_model"] = True      # the model object is falsy (an empty container with __len__)
     case = {"prog": prog, "pauses": [rng.randint(1, 6) for _ in range(rng.choice([0, 0, 1, 2]))]}
@@ -228,6 +234,9 @@ def run_case(case, ctx):
         for sp in prog["stats"]:
             key, kind, via = sp["key"], sp["kind"], sp.get("via")
             st = created[key]
+            if sp.get("watch") == "reset3":
+                ctx.count("tallies_re-initialised_by_their_own_subscriber")
+                continue
             obs = [(i, r) for i, r in enumerate(tl) if r[0] == "o" and r[1] == key]
             # (a baseline registered from the statistic's own INITIALIZED notification is made after the reset by
             # construction, although the recorder hears of the warm-up only afterwards)
